@@ -128,6 +128,22 @@ static void run_case(const CaseId& c, bool with_cache_histories) {
         ok &= check_bbox(x, mn, mx, *o.Q);
         ok &= check_hull(x, hull, *o.Q);
         hull.clear();
+        // documented contract (cell.hpp / reference.hpp): the hull is APPENDED to result, which need not be empty
+        Array<Vec2> pre = {};
+        const Vec2 s0{-7777.25, 1234.5}, s1{4321.75, -9999.5};
+        pre.append(s0); pre.append(s1);
+        if (o.cell) o.cell->convex_hull(pre); else o.ref->convex_hull(pre);
+        if (pre.count < 2 || !(pre[0] == s0) || !(pre[1] == s1)) {
+            report(x, "hull", "hull-result-not-appended", fmt("result array held 2 points before the call; afterwards it has %llu and its first two are %s", (unsigned long long)pre.count, pre.count >= 2 && pre[0] == s0 && pre[1] == s1 ? "kept" : "gone"));
+            ok = false;
+        } else {
+            Array<Vec2> tailv = {};
+            for (uint64_t k = 2; k < pre.count; k++) tailv.append(pre[k]);
+            ok &= check_hull(x, tailv, *o.Q);
+            tailv.clear();
+        }
+        pre.clear();
+        R->count("prefilled_result_queries");
     }
     // element-level boxes (polygon / label with repetition)
     for (uint64_t i = 0; i < w.leaf->polygon_array.count; i++) {
